@@ -122,6 +122,19 @@ def RxG (rx : Frame → St → Option Exc → R) : Prop :=
     (∃ t1, TGrow s.trace t1 ∧ ((rx f s e).1.trace = .released f.dep f.cls :: t1 ∨ (rx f s e).1.trace = t1)) ∧
     (G4 s → G4 (rx f s e).1) ∧ (rx f s e).1.keepAlive = s.keepAlive
 
+/-- the strong form (every level above 0): the last log entry is the `released` event -/
+def RxG1 (rx : Frame → St → Option Exc → R) : Prop :=
+  ∀ (P : Nat → Nat) (B : List Nat) (f : Frame) (s : St) (e : Option Exc), Inv B s →
+    (∀ b ∈ B, f.cls < b) → f ∈ s.open_ → (∀ k, f ∉ (s.mgrs k).held) → Inv3 P s →
+    Inv3 P (rx f s e).1 ∧
+    (∃ t1, TGrow s.trace t1 ∧ (rx f s e).1.trace = .released f.dep f.cls :: t1) ∧
+    (G4 s → G4 (rx f s e).1) ∧ (rx f s e).1.keepAlive = s.keepAlive
+
+theorem RxG.of_G1 {rx : Frame → St → Option Exc → R} (h : RxG1 rx) : RxG rx := by
+  intro P B f s e hI hb hf hh h3
+  obtain ⟨a, ⟨t1, ht, htr⟩, c, d⟩ := h P B f s e hI hb hf hh h3
+  exact ⟨a, ⟨t1, ht, Or.inl htr⟩, c, d⟩
+
 theorem exitFrames_G {rx : Frame → St → Option Exc → R} (hS : RxSpec rx) (hG : RxG rx) :
     ∀ (L : List Frame) (P : Nat → Nat) (B : List Nat) (s : St) (e : Option Exc), Inv B s →
       Pend L s → (∀ f ∈ L, f.dep = true ∧ ∀ b ∈ B, f.cls < b) → Inv3 P s →
@@ -231,8 +244,8 @@ theorem roeStep_G {td : Nat → St → R} (hG : TdG td) {P : Nat → Nat} {B : L
     · exact hG P B f.cls s h hb h3
     · exact ⟨h3, TGrow.refl _, fun g => g, rfl⟩
 
-theorem reqExitF_G {td : Nat → St → R} (hS : TdSpec td) (hG : TdG td)
-    (hclr : ∀ c s, ((td c s).1.mgrs c).inst = none) : RxG (reqExitF cfg td) := by
+theorem reqExitF_G1 {td : Nat → St → R} (hS : TdSpec td) (hG : TdG td)
+    (hclr : ∀ c s, ((td c s).1.mgrs c).inst = none) : RxG1 (reqExitF cfg td) := by
   intro P B f s e h hb hf hh h3
   have hcB : f.cls ∉ B := fun hm => Nat.lt_irrefl _ (hb _ hm)
   unfold reqExitF
@@ -254,8 +267,8 @@ theorem reqExitF_G {td : Nat → St → R} (hS : TdSpec td) (hG : TdG td)
   have g3fo := g0.1.frameOut f hu1
   change Inv3 P ((finallyStep td f.cls f.excl (r0.1.frameOut f) (later r0.2 none)).1.log _) ∧
     (∃ t1, TGrow s.trace t1 ∧
-      (((finallyStep td f.cls f.excl (r0.1.frameOut f) (later r0.2 none)).1.log (.released f.dep f.cls)).trace
-          = .released f.dep f.cls :: t1 ∨ _)) ∧
+      ((finallyStep td f.cls f.excl (r0.1.frameOut f) (later r0.2 none)).1.log (.released f.dep f.cls)).trace
+          = .released f.dep f.cls :: t1) ∧
     (G4 s → G4 ((finallyStep td f.cls f.excl (r0.1.frameOut f) (later r0.2 none)).1.log _)) ∧
     ((finallyStep td f.cls f.excl (r0.1.frameOut f) (later r0.2 none)).1.log _).keepAlive = s.keepAlive
   -- the `finally:` step
@@ -289,7 +302,7 @@ theorem reqExitF_G {td : Nat → St → R} (hS : TdSpec td) (hG : TdG td)
     have := key.1.opens f.cls
     simp only [if_true] at this
     omega
-  refine ⟨?_, ⟨r2.1.trace, ?_, Or.inl rfl⟩, ?_, ?_⟩
+  refine ⟨?_, ⟨r2.1.trace, ?_, rfl⟩, ?_, ?_⟩
   · constructor
     · exact key.1.heldDep
     · intro k
@@ -329,6 +342,10 @@ theorem reqExitF_G {td : Nat → St → R} (hS : TdSpec td) (hG : TdG td)
     · simp [hle]
   · show r2.1.keepAlive = s.keepAlive
     rw [key.2.2.2.1, hkfo]
+
+theorem reqExitF_G {td : Nat → St → R} (hS : TdSpec td) (hG : TdG td)
+    (hclr : ∀ c s, ((td c s).1.mgrs c).inst = none) : RxG (reqExitF cfg td) :=
+  RxG.of_G1 (reqExitF_G1 cfg hS hG hclr)
 
 end
 
